@@ -66,8 +66,9 @@ pub fn run(args: &Args) {
                 loan-heavy operations drawn online. non-trivial = at least 3 successful operations of 3 kinds and a strict share-price change; distinct by hash".into();
     let mut rng = Rng::new(args.seed);
     if let Some(path) = &args.replay {
-        if crate::w_admin::read_replay(path)["failing_input"]["kind"] == "owner_borrower_deposit_during_loan" {
-            owner_borrower_probe(&mut out);
+        let kind = crate::w_admin::read_replay(path)["failing_input"]["kind"].as_str().unwrap_or("").to_string();
+        if kind == "owner_borrower_deposit_during_loan" || kind == "router_two_vaults" {
+            if kind == "router_two_vaults" { router_two_vaults_probe(&mut out); } else { owner_borrower_probe(&mut out); }
             let bad = !out.monitor_failures.is_empty();
             for f in &out.monitor_failures { println!("REPLAY property predicate false: {}", f["what"]); }
             out.finish();
@@ -86,6 +87,7 @@ pub fn run(args: &Args) {
         }
     }
     owner_borrower_probe(&mut out);
+    router_two_vaults_probe(&mut out);
     // corpus: the probed nested-loan witness, both asset kinds
     for cw20 in [false, true] {
         let (f, fu, ops) = crate::c05::nested_witness();
@@ -210,5 +212,49 @@ fn owner_borrower_probe(out: &mut Out) {
             if code != 0 { out.monitor_fail("C06", "a refused (and caught) deposit during a loan made the loan fail", replay.clone()); }
             else if b.dump() != ctl_dump { out.monitor_fail("C06", "a deposit attempted during a loan left a trace (shares minted / balances moved)", replay.clone()); }
         }
+    }
+}
+
+/// Two router loans interleaved in one transaction on DIFFERENT vaults: bob's router loan on the main vault hands the funds to the
+/// borrower contract, which - before settling - takes its own router loan on a second vault (zero fees, repaid at once). The router
+/// must still forward what remains of the OUTER loan to the outer loan's initiator (bob), and keep nothing.
+/// (Monitor only: the vault machine has one vault.)
+fn router_two_vaults_probe(out: &mut Out) {
+    use cosmwasm_std::{coin, Addr, Binary};
+    use cw_multi_test::Executor;
+    use serde_json::json;
+    use white_whale_std::pool_network::asset::AssetInfo;
+    let fees = (DEC / 100, DEC / 200, 0);
+    for surplus in [5_000u128, 0, 1] {
+        let Ok(mut w) = deploy(false, fees, [1_000_000_000, 5_000_000_000, 5_000_000_000, 5_000_000_000, 2_000_000_000]) else { out.count("two_vaults:setup_failed"); continue };
+        if w.exec(&Op::Deposit { u: 6, amount: u(3_000_000), sent: u(3_000_000) }) != 0 { continue; }
+        // second vault: asset `ujunk` (every account holds it), no fees
+        let junk = AssetInfo::NativeToken { denom: "ujunk".into() };
+        let owner = w.addr(I_FOWNER);
+        let fac = w.factory.clone();
+        if w.app.execute_contract(owner, fac.clone(), &white_whale_std::vault_network::vault_factory::ExecuteMsg::CreateVault { asset_info: junk.clone(), fees: vfee(0, 0, 0), token_factory_lp: false }, &[]).is_err() {
+            out.count("two_vaults:second_vault_failed"); continue;
+        }
+        let v2: Option<String> = w.app.wrap().query_wasm_smart(&fac, &white_whale_std::vault_network::vault_factory::QueryMsg::Vault { asset_info: junk.clone() }).unwrap_or(None);
+        let Some(v2) = v2 else { continue };
+        let alice = w.addr(6);
+        if w.app.execute_contract(alice, Addr::unchecked(&v2), &white_whale_std::vault_network::vault::ExecuteMsg::Deposit { amount: u(1_000_000) }, &[coin(1_000_000, "ujunk")]).is_err() { continue; }
+        let loan = 500_000u128;
+        let q = match w.payback(loan) { Ok(p) => p.0, Err(_) => continue };
+        let inner = json!({"flash_loan": {"assets": [{"info": {"native_token": {"denom": "ujunk"}}, "amount": "1000"}], "msgs": []}});
+        let script = vec![Act::Raw { target: w.router.to_string(), msg: Binary::from(serde_json::to_vec(&inner).unwrap()) },
+                          Act::Pay { to: I_ROUTER, amount: u(q + surplus) }];
+        let bob = w.addr(7).to_string();
+        let (b0, r0, a0) = (w.asset_bal(&bob), w.asset_bal(w.router.as_str()), w.asset_bal(w.adv.as_str()));
+        let code = w.exec(&Op::RouterLoan { u: 7, amount: u(loan), pre: u(loan), script });
+        let replay = json!({"kind": "router_two_vaults", "outer_loan": loan.to_string(), "inner_loan_ujunk": "1000", "surplus_left_on_router": surplus.to_string(),
+                            "fees_protocol_flash_burn": [fees.0.to_string(), fees.1.to_string(), fees.2.to_string()]});
+        out.monitor_evals += 1;
+        out.count(if code == 0 { "two_vaults:completed" } else { "two_vaults:rejected" });
+        if code != 0 { out.monitor_fail("C06", "a router loan whose borrower takes (and repays) a router loan on another vault in between was rejected", replay); continue; }
+        let (b1, r1, a1) = (w.asset_bal(&bob), w.asset_bal(w.router.as_str()), w.asset_bal(w.adv.as_str()));
+        if b1 != b0 + surplus { out.monitor_fail("C06", &format!("the router forwarded {} to the outer loan's initiator, {} remained after settling the outer loan", b1 as i128 - b0 as i128, surplus), replay.clone()); }
+        if r1 != r0 { out.monitor_fail("C06", "the router kept funds after the loans", replay.clone()); }
+        if a0 + loan != a1 + q + surplus { out.monitor_fail("C06", "the borrower's balance moved by something else than what it paid", replay.clone()); }
     }
 }
